@@ -94,6 +94,31 @@ def c05_extra(rng, tier):
     return out
 
 
+def c05_exact(rng, tier):
+    out = []
+    for i, k in enumerate([1, 2] if tier != "quick" else [1]):
+        c = GB.BigConv("C05-exact-%d" % i, mode="lockstep")
+        n = k * GB.PM - 9                       # one text cell whose row message is exactly k*(2^24-1) bytes
+        c.small(com_query("Q"), seq0=3)
+        c.programs.append([op_start([GB.rcol("a")]), op_write_row([GB.vbig(GB.pattern(n, i))]), op_write_row([GB.vbig(GB.pattern(4, 1))]), op_finish()])
+        c.small(com_ping())
+        c.small(com_quit())
+        out.append(c.build())
+    return out
+
+
+def c20_wedge(rng, tier):
+    """out-of-order fragments with a client that WAITS for the answer (the server must answer or give up, not wait)"""
+    out = []
+    for i, (s0, seqs) in enumerate([(0, [0, 2]), (7, [7, 6]), (255, [255, 1])]):
+        c = GB.BigConv("C20-wedge-%d" % i, mode="lockstep", meta={"seqs": seqs})
+        c.cmd_runs(GB.canon([[3, 1]] + GB.pattern_ascii(GB.PM + 9, i)), s0, sizes=[GB.PM, 10], seqs=seqs)
+        c.programs.append([op_completed(0, 0)])
+        c.small(com_ping())
+        out.append(c.build())
+    return out
+
+
 def big_value_scenarios(pid, binary):
     """a few giant cells through the connection (value fidelity for data of any length)"""
     out = []
